@@ -258,6 +258,17 @@ func (v *VerifC23) HoldBucket(stepSec int64, key string) (release func()) {
 	return b.mu.Unlock
 }
 
+// InvalidateIterKey returns the key of the bucket shard.invalidateIter points at ("" = nil), read under shard.mu.
+func (v *VerifC23) InvalidateIterKey(stepSec int64) string {
+	shard := v.c.shards[time.Duration(stepSec)*time.Second]
+	shard.mu.Lock()
+	defer shard.mu.Unlock()
+	if shard.invalidateIter == nil {
+		return ""
+	}
+	return shard.invalidateIter.key
+}
+
 // VerifC23CacheKey returns the real cache key of a query whose only filter is "string top in `stop`".
 func VerifC23CacheKey(stop []string) string {
 	q := &queryBuilder{}
